@@ -3,6 +3,7 @@ import XdsVerif.Driver.C08
 import XdsVerif.Driver.C09
 import XdsVerif.Driver.C10
 import XdsVerif.Driver.C14
+import XdsVerif.Driver.C15
 import XdsVerif.Driver.C20
 open Lean XdsVerif.Driver
 
@@ -12,6 +13,7 @@ def dispatch (p : String) (j : Json) : Except String Verdict :=
   | "C09" => C09.check j
   | "C10" => C10.check j
   | "C14" => C14.check j
+  | "C15" => C15.check j
   | "C20" => C20.check j
   | _ => .error s!"no driver for property {p}"
 
